@@ -669,6 +669,13 @@ func (vc *VC) frameObligations(reach string, st *State, suffix string) {
 	if con.Assigns == "" || con.Assigns == "any" {
 		return
 	}
+	if st.epoch != vc.st0.epoch {
+		// some call on this path had no frame contract (all state havocked): nothing is known about what was
+		// written, so the frame cannot be established
+		vc.oblige("frame", "frame.unknown-callee"+suffix, con.frameProps(), reach, "false",
+			"assigns "+con.Assigns+": a callee without an assigns clause was called on this path", token.NoPos)
+		return
+	}
 	var names []string
 	for k := range st.vars {
 		names = append(names, k)
